@@ -152,3 +152,46 @@ fn c11_range_overflow_error() {
     core::mem::forget(o2);
     core::mem::forget(it);
 }
+
+/// Start value that is not a number (MV::Null): `+` fails on it in MV, whatever the step.
+struct StartNull;
+impl From<StartNull> for MV {
+    fn from(_: StartNull) -> MV {
+        MV::Null
+    }
+}
+impl<'a> From<StartNull> for ValX<'a, MV> {
+    fn from(_: StartNull) -> Self {
+        Ok(MV::Null)
+    }
+}
+
+//@ tier: quick
+//@ inst: V = MV
+//@ funcs: funs::range::<MV>
+//@ bounds: $from = null (in MV: smaller than every integer, and null + integer is an error), every isize $to and $by; two outputs; unwind 3
+//@ assume: none
+//@ asserts: the successor is always computed with `+`, also for a zero step: range(null; $to; $by) yields null (when the bound test holds) and then the error of null + $by - not null again
+//@ timeout: 900
+//@ mem_gb: 12
+#[kani::proof]
+#[kani::unwind(3)]
+fn c11_range_non_numeric_start() {
+    let (to, by): (isize, isize) = (kani::any(), kani::any());
+    let mut it = range(StartNull.into(), MV::Int(to), MV::Int(by));
+    let o1 = it.next();
+    // null < every integer: TEST holds for $by > 0 (null < $to) and $by = 0 (null != $to), not for $by < 0
+    if by >= 0 {
+        assert!(matches!(o1, Some(Ok(MV::Null))));
+        let o2 = it.next();
+        assert!(matches!(o2, Some(Err(_))));
+        core::mem::forget(o2);
+    } else {
+        assert!(o1.is_none());
+    }
+    kani::cover!(by == 0);
+    kani::cover!(by > 0);
+    kani::cover!(by < 0);
+    core::mem::forget(o1);
+    core::mem::forget(it);
+}
